@@ -173,6 +173,13 @@ NoPFlags == pf = {}
 \* the observer's map and the client's map agree (the refinement mapping of TxnMap)
 MapsAgree == c.stage = "idle" => open = c.txns
 
+(* ---- refinement: the client program implements the abstract token map ---- *)
+\* every step of FeigClient against any terminal is a step of TxnMap (Begin, Dangling, Close, Wipe, Reverse) or leaves the map, the
+\* terminal's books and the maximum unchanged
+TM == INSTANCE TxnMap WITH Tokens <- Tokens, Receipts <- 1..99, max <- cfg.max,
+                           open <- [t \in DOMAIN c.txns |-> DToInt(c.txns[t])], issued <- term.open
+RefinesTxnMap == TM!Spec
+
 (* ---- I-spec level invariants ---- *)
 \* the map never exceeds the configured maximum ... unless the maximum is 0 (nothing can be begun)
 WithinMax == Cardinality(DOMAIN c.txns) <= cfg.max
